@@ -320,3 +320,9 @@ def e4(case):
     finally:
         C.reset_backend()
     return dict(issues=issues, nontrivial=True, outcome=digest([be, "smoke"]), comparisons=ncmp)
+
+
+def finalize(results, plan, cases):
+    n4 = sum(1 for c in cases if c["kind"] == "E4")
+    return {"non_exhaustive_part": f"{n4} E4 cases are a seeded smoke test of the library random samplers (trusted base); every other case enumerates its finite space completely",
+            "cases_by_layer": {k: sum(1 for c in cases if c["kind"] == k) for k in ("E1", "E2", "E3", "E4")}}
